@@ -505,14 +505,14 @@ theorem stampChr_self (c : Nat) (ids : Nat → Nat) (l : List PRec)
     rw [h2, ← h1]
 
 /-- what a successful `collect_reads` went through -/
-theorem collectReads_unpack {E : Env} {hm : Bool} {readGroups : List String} {chroms : List ChrIn} {files : Saved}
-    (hsave : collectReads E hm readGroups chroms = some files) :
+theorem collectReads_unpack {E : Env} {hm : Bool} {readGroups : List String} {ua : Nat} {chroms : List ChrIn}
+    {files : Saved} (hsave : collectReads E hm readGroups ua chroms = some files) :
     ∃ saves d resolved mms info,
       chroms.mapM (fun c => writeStream (ungroup c.groups)) = some saves ∧
       perReadLists E hm chroms saves = some d ∧ resolveDict d.1 = some resolved ∧
       unknownChr E chroms resolved = false ∧
       chroms.mapM (fun c => writeMultimap (multimapLists E (E.intern c.name) resolved)) = some mms ∧
-      writeSaveInfo (infoOf readGroups d resolved) = some info ∧
+      writeInfoFile (infoOf readGroups d resolved) (ua : Int) = some info ∧
       files = { info := info, chrs := (saves.zip mms).map (fun x => ⟨x.1, x.2⟩) } := by
   unfold collectReads at hsave
   cases hs : chroms.mapM (fun c => writeStream (ungroup c.groups)) with
@@ -538,7 +538,7 @@ theorem collectReads_unpack {E : Env} {hm : Bool} {readGroups : List String} {ch
   cases hm' : chroms.mapM (fun c => writeMultimap (multimapLists E (E.intern c.name) resolved)) with
   | none => rw [hm'] at hsave; cases hsave
   | some mms =>
-  cases hi : writeSaveInfo (infoOf readGroups d resolved) with
+  cases hi : writeInfoFile (infoOf readGroups d resolved) (ua : Int) with
   | none => rw [hm', hi] at hsave; cases hsave
   | some info =>
   rw [hm', hi] at hsave
